@@ -12,7 +12,19 @@ McFlags == { <<0, 0, 0, 0>>, <<1, 0, 0, 0>>, <<0, 1, 0, 0>>, <<0, 0, 1, 0>>, <<0
 
 \* SubFix_sim.cfg: random files for the real tools; repeats are weights
 SimClasses == <<"ins", "ins", "ins", "ins", "ins", "sub", "sub", "sub", "rem", "begin", "else", "end", "end",
-                "org", "lab", "lab", "lab", "keep", "data", "bytes", "if", "gap">>
+                "org", "lab", "lab", "lab", "keep", "data", "bytes", "if", "ifrem", "ifrem", "ifdir", "gap">>
+\* @if conditions: every relation over both mode fields; each is true in some of the 12 modes and false in others
+AllConds == { <<v, r, n>> : v \in {"asm", "fix"}, r \in {">=", "==", "<", ">", "!="}, n \in 1..3 }
+NoConds == {}
+\* SubFix_mcif.cfg: exhaustive, every kind of directive wrapped in @if
+McIfClasses == <<"ins", "if", "ifrem", "ifdir", "rem", "lab", "gap">>
+McIfFeatures == { {"if", "rem", "lab", "gap", "org", "keep"} }
+McIfFlags == { <<0, 0, 0, 0>>, <<1, 0, 0, 0>>, <<0, 1, 0, 0>>, <<0, 0, 1, 0>>, <<0, 1, 1, 0>>, <<1, 1, 0, 0>>, <<0, 0, 0, 1>> }
+McIfConds == { <<"asm", ">=", 2>>, <<"fix", "<", 2>>, <<"fix", "!=", 3>> }
+\* SubFix_ifs.cfg: every file with one @if-wrapped directive among three instructions
+IfsClasses == <<"if", "ifrem", "ifdir", "ins">>
+IfsFeatures == { {"if", "keep"} }
+IfsConds == { <<"asm", ">", 1>>, <<"fix", "==", 2>>, <<"fix", "<", 2>> }
 \* SubFix_pairs.cfg: every pair of directives (all flag combinations) on the first of three instructions
 PairClasses == <<"sub", "ins">>
 NoFeatures == { {} }
